@@ -306,7 +306,15 @@ func TestGRPC(t *testing.T) {
 					}
 				}
 				for _, meth := range s.Methods {
-					if meth.GRPC == nil || meth.Streaming != "" {
+					if meth.GRPC == nil {
+						continue
+					}
+					if meth.Streaming != "" {
+						if !checkStreamMethod(t, b, s, meth) {
+							mu.Lock()
+							failures++
+							mu.Unlock()
+						}
 						continue
 					}
 					if !checkMethod(t, b, s, meth) {
